@@ -306,9 +306,9 @@ theorem lastOf_none (K : Bytes) (l : List (Bytes × Bytes)) (h : ∀ e ∈ l, e.
 
 theorem seconds_eq (v : Bytes) : Spec.seconds v = parseDuration v := rfl
 
-theorem parseUnsigned_decimal (max : Nat) (v : Bytes) (n : Nat) (h : Spec.decimal v = some n)
+theorem parseUnsigned_decimal (max : Nat) (v : Bytes) (n : Nat) (h : Spec.decimalL v = some n)
     (hle : n ≤ max) : parseUnsigned max v = some n := by
-  simp only [Spec.decimal] at h
+  simp only [Spec.decimalL] at h
   split at h
   · rename_i hc
     simp only [Bool.and_eq_true, Bool.not_eq_true', Option.some.injEq] at hc h
@@ -325,14 +325,14 @@ theorem parseUnsigned_decimal (max : Nat) (v : Bytes) (n : Nat) (h : Spec.decima
   · simp at h
 
 theorem splitOnce_eq (c : UInt8) (v : Bytes) :
-    splitOnce c v =
+    splitOnceS c v =
       match v.dropWhile (· != c) with
       | [] => none
       | _ :: b => some (v.takeWhile (· != c), b) := by
   induction v with
-  | nil => simp [splitOnce]
+  | nil => simp [splitOnceS]
   | cons x xs ih =>
-    simp only [splitOnce]
+    simp only [splitOnceS]
     by_cases h : x = c
     · subst h; simp [List.dropWhile, List.takeWhile]
     · have hb : (x != c) = true := by simpa using h
